@@ -82,7 +82,7 @@ def bool_facts(e, pol):
 
 
 class PathFacts:
-    def __init__(self, prog, fa, kill_summaries=None, record_calls=None, cap=2000, history=False):
+    def __init__(self, prog, fa, kill_summaries=None, record_calls=None, cap=2000, history=False, record_stores=None):
         self.prog = prog
         self.fa = fa
         self.fn = fa.fn
@@ -90,6 +90,7 @@ class PathFacts:
         self.blocks = fa.blocks
         self.kills = kill_summaries  # KillSummaries or None
         self.record_calls = record_calls  # predicate on callee record -> bool
+        self.record_stores = record_stores  # predicate on (place expr, value) -> bool
         self.cap = cap
         self.widened = False
         self._edge_cache = {}
@@ -170,8 +171,30 @@ class PathFacts:
         elif t['k'] == 'call' and self.record_calls and 'indirect' not in t['f'] and self.record_calls(t['f']):
             v = self.fa.call_value(t, at)
             res = [('called', callee_str(t['f']), tuple(strip_sites(a) for a in v[2]), b)]
+        if self.record_stores:
+            res = list(res) + self.store_markers(b)
         self._edge_cache[key] = res
         return res
+
+    def store_markers(self, b):
+        key = ('sm', b)
+        if key in self._edge_cache:
+            return self._edge_cache[key]
+        out = []
+        bb = self.blocks[b]
+        for k, s in enumerate(bb['s']):
+            if 'p' not in s:
+                continue
+            p = s['p']
+            pe = self.fa.place_expr(p, (b, k))
+            if s['rv']['k'] == 'setdiscr':
+                continue
+            val = self.fa.rvalue(s['rv'], (b, k))
+            if self.record_stores(pe, val):
+                fs = path_fields(pe)
+                out.append(('stored', fs[-1] if fs else ('local', pe[1] if pe[0] == 'local' else -1), strip_sites(pe), strip_sites(val)))
+        self._edge_cache[key] = out
+        return out
 
     # ---- kills of a block: set of (adt, field) / ('local', l) / ALL
     def block_kills(self, b):
@@ -258,13 +281,20 @@ class PathFacts:
         return minimal(out)
 
 
-def minimal(sets):
-    """keep only minimal fact sets (a superset path is implied by the subset path
-    for monotone obligations)"""
-    sets = list(set(sets))
-    sets.sort(key=len)
+PRUNE_ABOVE = 400
+
+
+def minimal(sets, force=False):
+    """Path fact sets are kept exactly (one per distinct set of facts) so that non-monotone
+    obligations ("if A was seen then B must have been seen") stay exact.  Only when a block
+    accumulates more than PRUNE_ABOVE sets are supersets dropped (sound for monotone obligations,
+    which is what rules use on such large functions)."""
+    sets = set(sets)
+    if len(sets) <= PRUNE_ABOVE and not force:
+        return sets
+    lst = sorted(sets, key=len)
     keep = []
-    for s in sets:
+    for s in lst:
         if any(k <= s for k in keep):
             continue
         keep.append(s)
@@ -274,6 +304,8 @@ def minimal(sets):
 def fact_killed(f, ks, immut=frozenset()):
     """is fact f invalidated by the kill keys ks?  Loads rooted at a shared-reference
     parameter (index in immut) cannot change during the call and are never killed."""
+    if f[0] in ('stored', 'called'):
+        return False  # history markers
     rr = roots_read(f)
     only_immut = bool(rr) and rr <= immut and not any(x and x[0] == 'local' for x in walk(f))
     if only_immut:
@@ -475,13 +507,13 @@ class Analyses:
             self._kills = KillSummaries(self.prog, self)
         return self._kills
 
-    def paths(self, fn, record_calls=None, history=False, tag=None):
+    def paths(self, fn, record_calls=None, history=False, tag=None, record_stores=None):
         """path facts of fn.  history=True: facts are never invalidated (they record which
         tests were passed on the way, evaluated at the time of the test); history=False:
         facts about memory are dropped when that memory may have been written."""
-        key = ('pf', fn.key, tag if record_calls else None, history)
+        key = ('pf', fn.key, tag if (record_calls or record_stores) else None, history)
         if key not in self._c:
-            self._c[key] = PathFacts(self.prog, self.get(fn), self.kills(), record_calls, history=history)
+            self._c[key] = PathFacts(self.prog, self.get(fn), self.kills(), record_calls, history=history, record_stores=record_stores)
         return self._c[key]
 
 
